@@ -10,5 +10,3 @@ pub use crate::socket::mapped_addrs::verif_hooks as mapped_addrs;
 pub use crate::net_report::verif_hooks as net_report;
 /// Transports: relay receive path without actor, send routing decisions.
 pub use crate::socket::transports::verif_hooks as transports;
-/// Transports: relay receive path without actor, send routing decisions.
-pub use crate::socket::transports::verif_hooks as transports;
